@@ -33,6 +33,11 @@ CASES = [
      '//@   ensures [def] result == specMinRec9(tr)',
      '//@   ensures [def] result == specMinRec9(tr) + 1',
      'netflow.v9.TemplateRecord.minRecordLen', r'minRecordLen#post\.1@def'),
+    ('old() is the entry state even when the change happens in straight-line code before any branch',
+     'ipfix/zz_contracts_verif.go',
+     '&& calls_Marshal == old(calls_Marshal) + 1',
+     '&& calls_Marshal == old(calls_Marshal)',
+     'ipfix.MemCache.Dump', r'Dump#post\.1@written\.ret3'),
 ]
 def sh(cmd, cwd=None):
     p = subprocess.run(cmd, cwd=cwd, env=ENV, capture_output=True, text=True, timeout=1800)
